@@ -83,8 +83,12 @@ def _value(v, val, ctx, env):
 
 def _seq(s, val, ctx, env):
     elems, tail = s[1], s[2]
-    if not isinstance(val, tuple):
+    if not isinstance(val, (tuple, str, bytes)):
+        # a bracketed sequence matches element-wise: the value must HAVE elements (a tuple of children, but also a str / bytes
+        # property, whose elements are its characters); None, a single node, a number have none
         raise Fail
+    if not elems and tail is None and not isinstance(val, tuple):
+        raise Fail   # "[] matches only the empty tuple"
     if tail is None:
         if len(val) != len(elems):
             raise Fail
